@@ -21,7 +21,9 @@ inductive Order where
 
 /-- One API call.  The state is a pair of tables `(a, b)`: calls act on `a`; `swap` exchanges them (so
 that histories can build both operands of `Equal`); `selectMatch`/`partitionMatch` store the (first)
-table they return in `b`, so that histories can go on to use a derived table. -/
+table they return in `b`, so that histories can go on to use a derived table.  `allUntil n` ranges over
+`All()` and breaks after `n` pairs (`0` = never); `equalOther` is `Equal` against a table of another
+implementation type holding the same pairs (the Go code answers `false` whenever the dynamic types differ). -/
 inductive Op (K V : Type) where
   | put (k : K) (v : V)
   | delete (k : K)
@@ -42,8 +44,10 @@ inductive Op (K V : Type) where
   | range (lo hi : K)
   | rangeSize (lo hi : K)
   | all
+  | allUntil (limit : Nat)
   | traverse (o : Order) (limit : Nat)
   | equal
+  | equalOther
   | anyMatch (p : K → V → Bool)
   | allMatch (p : K → V → Bool)
   | firstMatch (p : K → V → Bool)
@@ -165,6 +169,7 @@ def admits (cmp : K → K → Int) (eqVal : V → V → Bool) (s : State K V) : 
   | .range lo hi, o => o = .list (range cmp lo hi s.1)
   | .rangeSize lo hi, o => o = .int (range cmp lo hi s.1).length
   | .all, o => o = .list s.1
+  | .allUntil limit, o => o = .list (takeLim limit s.1)
   | .traverse ord limit, o =>
     match ord with
     | .lvr | .ascending => o = .list (takeLim limit s.1)
@@ -172,6 +177,7 @@ def admits (cmp : K → K → Int) (eqVal : V → V → Bool) (s : State K V) : 
     | .other => o = .list []
     | _ => ∃ l, l.Perm s.1 ∧ o = .list (takeLim limit l)
   | .equal, o => o = .bool (equal cmp eqVal s.1 s.2)
+  | .equalOther, o => o = .bool false
   | .anyMatch p, o => o = .bool (s.1.any (fun x => p x.1 x.2))
   | .allMatch p, o => o = .bool (s.1.all (fun x => p x.1 x.2))
   | .firstMatch p, o =>
